@@ -180,3 +180,60 @@ block_mode_harness!(cfb_dec_b3w3_n5_b2b, 9, 1, true, L3w3, 3, 3, 3, 5, cfb_mode:
 block_mode_harness!(cfb_dec_b3w3_n5_ip, 9, 2, false, L3w3, 3, 3, 3, 5, cfb_mode::Decryptor<&L3w3>, decrypt_blocks, decrypt_blocks_b2b, m_cfb_dec, 6, true, false);
 block_mode_harness!(cfb_enc_b3w3_n4_ip, 9, 1, false, L3w3, 3, 3, 3, 4, cfb_mode::Encryptor<&L3w3>, encrypt_blocks, encrypt_blocks_b2b, m_cfb_enc, 5, true, false);
 block_mode_harness!(ofb_enc_b3w3_n4_ip, 9, 1, false, L3w3, 3, 3, 3, 4, ofb::OfbCore<&L3w3>, encrypt_blocks, encrypt_blocks_b2b, m_ofb, 4, true, true);
+
+// ---- the backend's parallel entry point called directly, for EVERY width including 1 (the stock block API of the
+// dependency skips `*_par_blocks` when the width is 1, but `*_with_backend` hands the backend to any caller's closure)
+use cipher::array::Array;
+use cipher::crypto_common::BlockSizes;
+use cipher::inout::{InOutBuf, NotEqualError};
+use cipher::{BlockModeDecBackend, BlockModeDecClosure, BlockModeEncBackend, BlockModeEncClosure, BlockSizeUser};
+
+pub struct ParEntry<'i, 'o, BS: BlockSizes> { pub blocks: InOutBuf<'i, 'o, Array<u8, BS>> }
+impl<BS: BlockSizes> BlockSizeUser for ParEntry<'_, '_, BS> { type BlockSize = BS; }
+impl<BS: BlockSizes> BlockModeDecClosure for ParEntry<'_, '_, BS> {
+    fn call<B: BlockModeDecBackend<BlockSize = BS>>(self, backend: &mut B) {
+        let (chunks, tail) = self.blocks.into_chunks::<B::ParBlocksSize>();
+        for chunk in chunks { backend.decrypt_par_blocks(chunk); }
+        for b in tail { backend.decrypt_block(b); }
+    }
+}
+impl<BS: BlockSizes> BlockModeEncClosure for ParEntry<'_, '_, BS> {
+    fn call<B: BlockModeEncBackend<BlockSize = BS>>(self, backend: &mut B) {
+        let (chunks, tail) = self.blocks.into_chunks::<B::ParBlocksSize>();
+        for chunk in chunks { backend.encrypt_par_blocks(chunk); }
+        for b in tail { backend.encrypt_block(b); }
+    }
+}
+pub trait ParEntryDec: BlockModeDecrypt {
+    fn pe_decrypt_blocks(&mut self, b: &mut [Block<Self>]) { self.decrypt_with_backend(ParEntry { blocks: b.into() }) }
+    fn pe_decrypt_blocks_b2b(&mut self, i: &[Block<Self>], o: &mut [Block<Self>]) -> Result<(), NotEqualError> {
+        InOutBuf::new(i, o).map(|blocks| self.decrypt_with_backend(ParEntry { blocks }))
+    }
+}
+impl<T: BlockModeDecrypt> ParEntryDec for T {}
+pub trait ParEntryEnc: BlockModeEncrypt {
+    fn pe_encrypt_blocks(&mut self, b: &mut [Block<Self>]) { self.encrypt_with_backend(ParEntry { blocks: b.into() }) }
+    fn pe_encrypt_blocks_b2b(&mut self, i: &[Block<Self>], o: &mut [Block<Self>]) -> Result<(), NotEqualError> {
+        InOutBuf::new(i, o).map(|blocks| self.encrypt_with_backend(ParEntry { blocks }))
+    }
+}
+impl<T: BlockModeEncrypt> ParEntryEnc for T {}
+
+log_cipher!(L2w3, U2, 2, U3, 7);
+// width 1: every block goes through *_par_blocks; widths 2, 3: chunks then single blocks (native search; `_nat` not needed:
+// these are ordinary harnesses, kept out of the Kani lists)
+block_mode_harness!(cbc_pdec_b2w1_n3_ip, 6, 1, false, L2w1, 2, 2, 2, 3, cbc::Decryptor<&L2w1>, pe_decrypt_blocks, pe_decrypt_blocks_b2b, m_cbc_dec, 3, false, true);
+block_mode_harness!(cbc_pdec_b2w1_n3_b2b, 6, 2, true, L2w1, 2, 2, 2, 3, cbc::Decryptor<&L2w1>, pe_decrypt_blocks, pe_decrypt_blocks_b2b, m_cbc_dec, 3, false, true);
+block_mode_harness!(cbc_penc_b2w1_n3_b2b, 6, 1, true, L2w1, 2, 2, 2, 3, cbc::Encryptor<&L2w1>, pe_encrypt_blocks, pe_encrypt_blocks_b2b, m_cbc_enc, 3, true, true);
+block_mode_harness!(cbc_pdec_b2w3_n5_ip, 8, 1, false, L2w3, 2, 2, 2, 5, cbc::Decryptor<&L2w3>, pe_decrypt_blocks, pe_decrypt_blocks_b2b, m_cbc_dec, 5, false, true);
+block_mode_harness!(pcbc_pdec_b2w1_n3_b2b, 6, 1, true, L2w1, 2, 2, 2, 3, pcbc::Decryptor<&L2w1>, pe_decrypt_blocks, pe_decrypt_blocks_b2b, m_pcbc_dec, 3, false, true);
+block_mode_harness!(pcbc_penc_b2w1_n3_ip, 6, 2, false, L2w1, 2, 2, 2, 3, pcbc::Encryptor<&L2w1>, pe_encrypt_blocks, pe_encrypt_blocks_b2b, m_pcbc_enc, 3, true, true);
+block_mode_harness!(ige_pdec_b2w1_n3_ip, 6, 1, false, L2w1, 2, 2, 4, 3, ige::Decryptor<&L2w1>, pe_decrypt_blocks, pe_decrypt_blocks_b2b, m_ige_dec, 3, false, true);
+block_mode_harness!(ige_penc_b2w1_n3_b2b, 6, 2, true, L2w1, 2, 2, 4, 3, ige::Encryptor<&L2w1>, pe_encrypt_blocks, pe_encrypt_blocks_b2b, m_ige_enc, 3, true, true);
+block_mode_harness!(cfb_pdec_b2w1_n3_ip, 6, 1, false, L2w1, 2, 2, 2, 3, cfb_mode::Decryptor<&L2w1>, pe_decrypt_blocks, pe_decrypt_blocks_b2b, m_cfb_dec, 4, true, false);
+block_mode_harness!(cfb_pdec_b2w1_n3_b2b, 6, 2, true, L2w1, 2, 2, 2, 3, cfb_mode::Decryptor<&L2w1>, pe_decrypt_blocks, pe_decrypt_blocks_b2b, m_cfb_dec, 4, true, false);
+block_mode_harness!(cfb_penc_b2w1_n3_b2b, 6, 1, true, L2w1, 2, 2, 2, 3, cfb_mode::Encryptor<&L2w1>, pe_encrypt_blocks, pe_encrypt_blocks_b2b, m_cfb_enc, 4, true, false);
+block_mode_harness!(cfb_pdec_b2w3_n5_b2b, 8, 1, true, L2w3, 2, 2, 2, 5, cfb_mode::Decryptor<&L2w3>, pe_decrypt_blocks, pe_decrypt_blocks_b2b, m_cfb_dec, 6, true, false);
+block_mode_harness!(cfb8_pdec_b2w1_n4_ip, 7, 1, false, L2w1, 2, 1, 2, 4, cfb8::Decryptor<&L2w1>, pe_decrypt_blocks, pe_decrypt_blocks_b2b, m_cfb8_dec, 4, true, true);
+block_mode_harness!(ofb_penc_b2w1_n3_b2b, 6, 1, true, L2w1, 2, 2, 2, 3, ofb::OfbCore<&L2w1>, pe_encrypt_blocks, pe_encrypt_blocks_b2b, m_ofb, 3, true, true);
+block_mode_harness!(ofb_pdec_b2w3_n5_ip, 8, 2, false, L2w3, 2, 2, 2, 5, ofb::OfbCore<&L2w3>, pe_decrypt_blocks, pe_decrypt_blocks_b2b, m_ofb, 5, true, true);
